@@ -20,7 +20,8 @@ CONSTANT Family       \* "C02" | "C14" | "C15" | "C16"
 
 Reductions == {"unit_weights_l1", "unit_weights_mcp", "unit_weights_group", "l1_ratio_one", "singleton_groups",
                "one_task", "constant_slope", "big_gamma_mcp", "big_delta_huber", "unit_sample_weights",
-               "integer_sample_weights", "efron_no_ties", "gram_vs_cd", "gram_vs_cd_acc", "gram_greedy_vs_cyclic",
+               "integer_sample_weights", "efron_no_ties", "efron_no_tied_events", "sparse_group_zero_group_weights",
+               "gram_vs_cd", "gram_vs_cd_acc", "gram_greedy_vs_cyclic",
                "estimator_vs_gle_lasso", "estimator_vs_gle_enet", "estimator_vs_gle_mcp", "estimator_vs_gle_logreg",
                "estimator_vs_gle_svc", "block_mcp_one_task"}
 Symmetries == {"perm_features", "perm_features_weights", "perm_groups", "perm_within_group", "perm_tasks",
